@@ -231,7 +231,11 @@ class FileInfo:
             return
 
         self.start_data = data[:self.vpk.dir_limit]
-        arch_data = data[self.vpk.dir_limit:]
+        if self.vpk.dir_limit is None:
+            # No limit, everything was put into the directory.
+            arch_data = b''
+        else:
+            arch_data = data[self.vpk.dir_limit:]
 
         self.arch_len = len(arch_data)
 
